@@ -249,6 +249,32 @@ def native_harness(tier, seed):
                             break
             except Exception as ex:
                 fails.append('hard-panned %s (valid multichannel input) raised %s: %s' % (what, type(ex).__name__, str(ex)[:100]))
+        # a hard-panned reference (singular Gram matrix: the least-squares fallback) is still separated perfectly by a perfect estimate, and the
+        # permutation follows a reordering of the estimates
+        refp = rs.randn(2, Tm, 2)
+        refp[0, :, 0] = 0.0
+        for order_, wantp_ in (([0, 1], [0, 1]), ([1, 0], [1, 0])):
+            n += 1
+            try:
+                op_ = S.bss_eval_images(refp, refp[order_].copy())
+                if np.asarray(op_[4]).tolist() != wantp_ or not (np.asarray(op_[0]) > 100).all() or not (np.asarray(op_[2]) > 100).all():
+                    fails.append('perfect estimate of a hard-panned reference (estimates in order %s): perm %s, SDR %s, SIR %s' % (
+                        order_, np.asarray(op_[4]).tolist(), np.asarray(op_[0]).tolist(), np.asarray(op_[2]).tolist()))
+            except Exception as ex:
+                fails.append('perfect estimate of a hard-panned reference raised %s: %s' % (type(ex).__name__, str(ex)[:100]))
+        # a source whose samples sum to exactly zero (integer-valued, antisymmetric) is not silent: valid input, no NaN window
+        xs_ = np.round(rs.randn(Tm // 2) * 100)
+        srcz = rs.randn(2, Tm)
+        srcz[0] = np.concatenate([xs_, -xs_])
+        estz = srcz[::-1] * 0.5 + 0.1 * rs.randn(2, Tm)
+        n += 1
+        try:
+            S.validate(srcz, estz)
+            oz_ = S.bss_eval_sources_framewise(srcz, estz, window=Tm, hop=Tm)
+            if any(np.isnan(np.asarray(m_)).any() for m_ in oz_[:3]):
+                fails.append('bss_eval_sources_framewise gives NaN although no source is silent (one source sums to exactly 0): %s' % [np.asarray(m_).tolist() for m_ in oz_[:1]])
+        except Exception as ex:
+            fails.append('a source summing to exactly zero (not silent) raised %s: %s' % (type(ex).__name__, str(ex)[:100]))
         # integer-typed (PCM) input: same scores as the same values given as floats, components still sum to the estimate
         Ti = 1300
         refi = (rs.randn(2, Ti) * 3000).astype(np.int16)
